@@ -15,6 +15,8 @@ import sys, os, ast, json, tempfile, shutil
 sys.path.insert(0, os.path.dirname(os.path.abspath(__file__)))
 from common import *
 
+OUTPUTS = ["Strategies.v"]
+
 
 def fail(msg):
     raise GenError('gen_strategies: ' + msg)
